@@ -132,6 +132,75 @@ def add_type(kc, q, backend, pfx, nbytes, with_strings, with_scale):
                            sample={"harness": "from_scale_" + tag, "symbolic": "x: any f64 bit pattern, unit k", "asserts": "first unit with scale == x, else None"}))
 
 
+def e2_task(t):
+    """from_scale / unit_from_scale for a SYMBOLIC amount x in both back-ends (decimal comparisons are exact in T_red):
+    Some(u) only if x == scale(u) and x differs from the scale of every earlier unit; None only if x differs from all."""
+    import z3
+    from engine.mirsmt import driver, theories as T, pool as mpool
+    from props import e2common as E
+    key, q = t
+    w = mpool.world(key)
+    be = w.backend
+    R = mpool.TaskResult()
+    sv = driver.Solver(timeout_ms=30000)
+    us = w.units(q)
+    sc = {u: w.scale_fr(q, u) for u in us}
+    for callee, label in (("<%s as LinearScaledUnit>::from_scale" % w.qty[q], "from_scale"), ("<%s as HasRefUnit>::unit_from_scale" % q, "unit_from_scale")):
+        th = T.TRe64() if be == "f64" else T.TRed()
+        run = driver.Run(w, th)
+        x = th.var("x")
+        outs = run.call(run.state(), callee, [x])
+        R.absorb_exec(run.ex)
+        pair = "%s %s %s(x)" % (be, q, label)
+        seen_none = False
+        for o in outs:
+            if o.panic:
+                R.oblig(pair + " no panic", False, True)
+                continue
+            v = o.value
+            if v.variant == "None":
+                seen_none = True
+                goal = z3.And([x.term != T.Q(sc[u]) for u in us])
+                name = "None"
+            else:
+                u = v.payload[0].variant
+                k = us.index(u)
+                goal = z3.And([x.term == T.Q(sc[u])] + [x.term != T.Q(sc[v2]) for v2 in us[:k]])
+                name = "Some(%s)" % u
+            res, _ = sv.check(th.cons + o.pc + [z3.Not(goal)], keep_sample=True)
+            R.oblig("%s -> %s" % (pair, name), res == "unsat", True, {"obligation": "%s -> %s" % (pair, name), "theory": th.name,
+                                                                        "goal": "returned only if x equals that unit's scale and no earlier unit's scale; None only if x equals no scale"})
+            if res != "unsat":
+                R.inconclusive.append("%s -> %s: lookup result not justified (%s)" % (pair, name, res))
+        # completeness: every distinct scale is found (concrete call)
+        for u in us:
+            th2 = T.TRe64() if be == "f64" else T.TRed()
+            run2 = driver.Run(w, th2, prune=False)
+            o2 = run2.call(run2.state(), callee, [th2.const(w.scale_exact(q, u))])
+            first = [v2 for v2 in us if sc[v2] == sc[u]][0]
+            ok = len(o2) == 1 and not o2[0].panic and o2[0].value.variant == "Some" and o2[0].value.payload[0].variant == first
+            R.oblig("%s %s %s(scale of %s) = first unit with that scale" % (be, q, label, u), ok, False)
+            if not ok:
+                R.inconclusive.append("%s %s %s(scale of %s): expected Some(%s), got %r" % (be, q, label, u, first, [o.value for o in o2][:1]))
+    R.absorb_solver(sv)
+    return R
+
+
+def e2_part(report, tier):
+    from engine.mirsmt import pool as mpool
+    from props import e2common as E
+    keys = E.dump_worlds(["f64", "dec"], astro=True, fixture=True)
+    pool = mpool.Pool(jobs=4)
+    try:
+        desc = E.describe_worlds(pool, keys)
+        tasks = [(keys[label], q) for label in keys for q in desc[label]["qty"] if desc[label]["has_ref"][q] and q not in ("f64", "Decimal")]
+        tasks = sorted(set(tasks), key=str)
+        pool.run(report, e2_task, tasks)
+        report.bounds["e2_scale_lookup"] = "from_scale / unit_from_scale for a symbolic amount (any real, comparisons exact) and for every declared scale: all catalogue types in f64 and decimal, astronomical types, synthetic types"
+    finally:
+        pool.close()
+
+
 def run(report, tier):
     report.level = "model_checking"
     report.trusted += ["Kani 0.68 MIR->GOTO translation", "CBMC 6.11 + cadical", "spec/catalogue.py for the set of units; /repo's attribute lines only for the order of equal-scale units"]
@@ -160,6 +229,7 @@ def run(report, tier):
         add_type(kd, q, "dec", "", nbytes, False, False)
     import concurrent.futures as cf
     tmo = 1200 if tier == "quick" else 3000
+    e2_part(report, tier)          # forks its worker pool before the Kani threads start
     with cf.ThreadPoolExecutor(max_workers=2) as ex:
         f1 = ex.submit(kf.run, report, tmo, 12, 7)
         f2 = ex.submit(kd.run, report, tmo, 12, 5)
